@@ -11,6 +11,7 @@ from ..r_rules import rule_overlap_atoms as _rule_overlap
 from ..r_valence import rule_tentative_removal_set as _rule_tentative
 from ..r_rings import rule_tentative_rollback as _rule_rollback
 from ..r_round9 import rule_radical_patch_tristate as _r9_tri
+from ..r_round10 import rule_charge_rollback_threshold as _r10_ch
 
 LEVEL = 'other'
 NORMALISERS = {'Standardize.canonicalize', 'Standardize.standardize', 'Standardize.standardize_charges', 'Resonance.fix_resonance',
@@ -34,3 +35,4 @@ def run(ck, repo):
     _rule_tentative(ck, repo, 'C14.D4-tentative-removal')
     _rule_rollback(ck, repo, 'C14.D4-tentative-rollback', ['chython.algorithms.standardize.resonance:Resonance.fix_resonance'])
     _r9_tri(ck, repo, 'C14.D6-radical-patch-tristate')
+    _r10_ch(ck, repo, 'C14.D7-charge-rollback-threshold')
